@@ -802,7 +802,7 @@ class Runner(object):
                                       ('c05_total', 'agree_total', self.terms_total, self.metas_total)):
             if not terms:
                 continue
-            shard = max(25, (len(terms) + 13) // 14)
+            shard = max(30, (len(terms) + 9) // 10) if len(terms) < 3000 else 300
             n, failing, errors = core.eval_agreement(tag, hdr, fn, terms, shard=shard, case_type=CASE_TYPE)
             res.programs += n
             res.corr_errors += errors
@@ -848,7 +848,7 @@ def run(ctx):
     corpus(runner, rng)
 
     # 1. random trees x random inputs (exact / tie-heavy / rounded credit tables)
-    n_cases = 2500 if thorough else (900 if big else 420)
+    n_cases = 2500 if thorough else (700 if big else 320)
     for i in range(n_cases):
         pal = ('exact', 'ties', 'rounded')[i % 3]
         case, m = make_case(rng, pal)
@@ -948,27 +948,34 @@ def replay(w):
 TRUSTED = [
     'hand-written model coq/Model/ListGrader.v tied to listgrader.py by differential correspondence decided inside Coq '
     '(harness/props/c05.py wraps the item-level subgraders\' check and the top-level perform_check at run time; answer objects are '
-    'identified by identity inside the validated configuration)',
-    'solver hypothesis of the unordered theorems (munkres_partial_correct_statement): discharged for integer costs by C06\'s '
-    'munkres_partial_correct; the transfer to rational costs (scale invariance of the solver) is validated by correspondence, not proved',
+    'identified by identity inside the validated configuration; compared: the per-answer-list results of perform_check and the '
+    'final input_list, entry by entry)',
+    'assignment solver: the model calls the integer instance of the Munkres model (computeZ, C06) on the costs D*(1 - grade), D a '
+    'common denominator; its optimality on rational matrices is PROVED from C06\'s munkres_partial_correct (solveZ_optimal, '
+    'C05_solver_optimal), termination from munkres_terminates (C05_unordered_returns).  That the real code, which runs the solver on '
+    'the float costs 1 - grade, takes the same decisions as on the scaled integers (scale invariance; sys.maxsize is never reached) is '
+    'validated by the correspondence, not proved',
     'modelled, not verified: the subgraders (an arbitrary oracle in every theorem; the recorded results in the cases), IEEE '
-    'rounding of 1 - grade, of the Munkres arithmetic and of numpy\'s row sums (exact-dyadic stream compared by equality, decimal '
-    'stream within 1e-9), Python zip/max/list semantics, voluptuous',
+    'rounding of 1 - grade, of sum/len in consolidate_grades, of the Munkres arithmetic and of numpy\'s row sums (runs in which every '
+    'float operation is exact are compared by equality, the others by totals within 1e-9), Python zip/max/list semantics, voluptuous',
 ]
 ASSUMPTIONS = [
     'subgrader check is a function of (answer, input, siblings) returning a result or raising',
-    'the grouping is valid (create_grouping_map / validate_grouping accept it) and the number of groups equals the number of answers',
-    'solver_optimal: the solver returns a complete minimum-total-cost one-to-one assignment on square rational cost matrices '
-    '(discharged for integer costs by C06\'s munkres_partial_correct; the transfer to rational costs (scale invariance of the '
-    'solver) is validated by correspondence, not proved)',
-    'for the statement about the total of all reported entries under grouping: grades are non-negative and every group result has one entry per input of the group',
+    'the grouping is valid (create_grouping_map / validate_grouping accept it); as many answers as groups / inputs and, for a list of '
+    'subgraders, as many subgraders as answers (schema_answers enforces the latter; the former is an explicit hypothesis where used)',
+    'grouped unordered graders, statement about the sum of all reported entries: equal-size groups, grades non-negative, every group '
+    'result has one entry per input of the group (explicit hypotheses of C05_unordered_grouped_total_max)',
+    'ties between alternative lists / assignments of equal total: any maximal one satisfies the property; the model reproduces the '
+    'code\'s choice (which tests grades for being non-zero, not for being the highest, see C05_ex_tie_rule_is_nonzero_first)',
 ]
 LEVEL_TEXT = ('Theorems about an executable model of ListGrader over an arbitrary subgrader oracle, lists of any length, any nesting depth: '
               'ordered graders report, at every box, exactly what the positional subgrader returns (siblings passed unchanged); groupify/'
               'ungroupify are mutually inverse on valid groupings and every entry lands at the box of the input it grades; unordered graders '
-              'report a one-to-one assignment of maximal total credit (explicit hypothesis on the solver, see assumptions); the reported '
-              'answer list has maximal total; partial_credit=False zeroes everything unless all entries are correct.')
-LEVEL_NOTE = ('Exact rational arithmetic; the assignment solver\'s optimality on rational matrices is an explicit hypothesis of the unordered '
-              'theorems (proved for integer costs in C06); trusted: Coq kernel, harness/props/c05.py; no axioms.')
-TECHNIQUE = 'Coq proof (induction on lists, permutations, Q arithmetic) + vm_compute differential correspondence + exhaustive n! oracle'
+              'report a one-to-one assignment of inputs (groups) to answers whose total credit is maximal over all assignments (solver '
+              'optimality on rational costs derived from C06, no hypothesis left); the reported answer list has maximal total over all '
+              'alternative lists and all their assignments; partial_credit=False zeroes everything unless all entries are correct; '
+              'the unordered branch returns whenever the subgraders do (C06 termination).')
+LEVEL_NOTE = ('Exact rational arithmetic; float effects (costs 1 - grade, averages, numpy sums) are covered by the correspondence and the '
+              'oracle with tolerance 1e-9, not by theorems; trusted: Coq kernel, harness/props/c05.py; no axioms.')
+TECHNIQUE = 'Coq proof (induction on lists, permutations, Q arithmetic, C06 solver theorems) + vm_compute differential correspondence + exhaustive n! oracle'
 DESIGN_REF = 'DESIGN.md section 3, C05'
